@@ -16,6 +16,7 @@ import Driver.Serialize
 import Driver.BlockEnc
 import Driver.CStream
 import Driver.Wear
+import Driver.SeqProd
 
 def main (args : List String) : IO UInt32 := do
   match args with
@@ -37,4 +38,5 @@ def main (args : List String) : IO UInt32 := do
   | ["blockenc"] => Driver.BlockEnc.main; return 0
   | ["cstream"] => Driver.CStream.main; return 0
   | ["wear"] => Driver.Wear.main; return 0
+  | ["seqprod"] => Driver.SeqProd.main; return 0
   | _ => IO.eprintln "usage: zvdriver <model>"; return 2
